@@ -26,6 +26,7 @@ from __future__ import annotations
 import asyncio
 import json
 import logging
+import os
 import shutil
 import sqlite3
 import tempfile
@@ -137,6 +138,7 @@ FAULT_SQL = {"scan_run": "INSERT INTO scan_run", "pre": "SET properties_pre", "p
 class SyncConn:
     def __init__(self, path: Any, fault: str | None, box: dict[str, Any]) -> None:
         self.con = sqlite3.connect(str(path))
+        self.con.execute("PRAGMA synchronous = OFF")   # no fsync per commit: durability is not what is observed here
         self.fault = fault
         self.box = box
 
@@ -207,7 +209,8 @@ def run_case(case: dict[str, Any], mutant: str | None = None) -> dict[str, Any]:
     from gallia.services.uds.ecu import ECU, ECUProperties
 
     install_capture()
-    tmp = Path(tempfile.mkdtemp(prefix="x12s-"))
+    shm = "/dev/shm" if os.access("/dev/shm", os.W_OK) else None     # memory-backed scratch directory if there is one
+    tmp = Path(tempfile.mkdtemp(prefix="x12s-", dir=shm))
     box: dict[str, Any] = {"phase": "setup", "warn": [], "marks": []}
     _CAP.box = box
     plan = case["main"]
@@ -270,6 +273,7 @@ def run_case(case: dict[str, Any], mutant: str | None = None) -> dict[str, Any]:
             art.mkdir()
             sc.artifacts_dir = art
         with serving(server) as lst:
+            before = set(asyncio.all_tasks())
             try:
                 try:
                     await sc._db_insert_run_meta()
@@ -293,6 +297,9 @@ def run_case(case: dict[str, Any], mutant: str | None = None) -> dict[str, Any]:
             mark("RunEnd")
             await asyncio.sleep(3 * interval + 1.0)
             out["open"] = sum(1 for w in lst.wires if w.client_closed_at is None)
+            # background tasks the run created and left pending (the ECU's own connection handlers are not the run's)
+            out["leaked"] = sum(1 for t in asyncio.all_tasks() - before
+                                if not t.done() and getattr(t.get_coro(), "__name__", "") != "handle_client")
             out["conns"] = len(lst.wires)
             # stop what a faulty teardown may have left behind, so that the loop can end
             tp = getattr(getattr(sc, "ecu", None), "tester_present_task", None)
@@ -334,7 +341,7 @@ def run_case(case: dict[str, Any], mutant: str | None = None) -> dict[str, Any]:
                     files[key] = _vin(p.read_text())
         return {"case": case, "log": server.log, "marks": box["marks"], "warn": box["warn"], "run": out["run"],
                 "exc": out["exc"], "open": out.get("open", -1), "conns": out.get("conns", -1), "db": dbrow,
-                "files": files, "faults_fired": box.get("faults_fired", 0),
+                "files": files, "faults_fired": box.get("faults_fired", 0), "leaked": out.get("leaked", -1),
                 "tp_left_running": bool(out.get("tp_left_running", False))}
     finally:
         uds_mod.load_ecu, dbh.aiosqlite.connect, server_mod.time = orig  # type: ignore[assignment]
@@ -375,7 +382,7 @@ def to_trace(r: dict[str, Any]) -> dict[str, Any]:
                 "dbFault": c.get("db_fail") or "none", "dscRefused": c.get("ecu", {}).get("dsc", "ok") != "ok"},
         "reqs": [{"t": e["t"], "ph": e["ph"], "k": e["k"], "res": e["res"], "v": e["v"], "lvl": e["lvl"]} for e in r["log"]],
         "nmain": nmain, "mainStart": ms, "mainEnd": me["t"], "mainOut": me.get("out", "none"),
-        "runEnd": re_, "runOut": r["run"], "open": r["open"],
+        "runEnd": re_, "runOut": r["run"], "open": r["open"], "leaked": r["leaked"],
         "db": {"has": r["db"]["has"], "rows": r["db"]["rows"], "pre": -1 if r["db"]["preNull"] else vin_idx(r["db"]["pre"]),
                "post": -1 if r["db"]["postNull"] else vin_idx(r["db"]["post"])},
         "files": {"pre": vin_idx(r["files"]["pre"]) if r["files"]["hasPre"] else -1,
